@@ -248,3 +248,11 @@ func init() {
 		return nil
 	}
 }
+
+func init() {
+	// vxSplitIndex(): symbolic element indices into slices of <= 16 elements are case-split
+	vxAPI["vxSplitIndex"] = func(ex *Exec, fr *Frame, fn *ssa.Function, args []Value, site ssa.Instruction) Value {
+		ex.splitIndex = true
+		return nil
+	}
+}
